@@ -36,6 +36,7 @@ func c08Values(typ string, thorough bool) []c08Val {
 			{int64(-1), true, "", ""}, {int64(math.MinInt32), true, "", "min int32"},
 			{int64(math.MaxInt32) + 1, false, "2147483648", "2^31"}, {int64(math.MinInt32) - 1, false, "", "-2^31-1"},
 			{int64(math.MaxInt64), false, "9223372036854775807", "max int64 into INT"},
+			{int64(math.MinInt64), false, "", "min int64 into INT"}, {int64(math.MinInt64) + 1, false, "", "min int64 + 1 into INT"}, {int64(1) << 32, false, "4294967296", "2^32 into INT (low 32 bits are zero)"},
 			{nil, true, "", "NULL"},
 			{"7", false, "'7'", "string into INT"}, {true, false, "true", "bool into INT"},
 			{int(5), false, "", "Go int (not int64)"}, {int32(5), false, "", "Go int32"}, {3.5, false, "", "float64"},
